@@ -101,6 +101,9 @@ func c15Run(c *core.Ctx, long bool) {
 		c.Violate("prepare", "GR4J", err.Error())
 		return
 	}
+	if c.R.Bool(0.25) {
+		CheckEmptyRun(c, "GR4J", run.Sets, out.States)
+	}
 	q := out.Out[0][0]
 	anyRain := false
 	worst := 0.0
